@@ -53,7 +53,10 @@ template <typename To> struct SpThunk { static Result run(int w, Rounding_Dir d,
 template <typename A, typename B> struct CmpThunk {
   static CmpOut run(const void* xs, size_t i, const void* ys, size_t j, bool ordered) { CmpOut o; const A& x = VecThunk<A>::at(xs, i); const B& y = VecThunk<B>::at(ys, j);
     o.p[0] = equal(x, y); o.p[1] = not_equal(x, y); o.p[2] = less_than(x, y); o.p[3] = less_or_equal(x, y); o.p[4] = greater_than(x, y); o.p[5] = greater_or_equal(x, y);
-    o.c = ordered ? cmp(x, y) : 0; return o; }
+    o.has_cmp = std::is_same<typename Kind<A>::raw_t, typename Kind<B>::raw_t>::value; o.c = ordered ? cmp_same(x, y) : 0; return o; }
+  // cmp() is only provided for operands of one underlying type
+  template <typename X, typename Y> static typename std::enable_if<std::is_same<typename Kind<X>::raw_t, typename Kind<Y>::raw_t>::value, int>::type cmp_same(const X& x, const Y& y) { return cmp(x, y); }
+  template <typename X, typename Y> static typename std::enable_if<!std::is_same<typename Kind<X>::raw_t, typename Kind<Y>::raw_t>::value, int>::type cmp_same(const X&, const Y&) { return 0; }
   static int sg(const void* xs, size_t i) { return sgn(VecThunk<A>::at(xs, i)); }
 };
 
